@@ -405,3 +405,36 @@ class SetLocation(FnCheck):
             ex.oblige(st, 'same_descriptor_for_both_steps', z3.And(steps[1][1] == h, steps[2][1] == h))
             ex.oblige(st, 'nothing_is_exempted_from_disassociation', z3.BoolVal(steps[1][2] is False))
             ex.oblige(st, 'new_state_is_created_associated_with_generated_handle', z3.BoolVal(steps[2][2] is True and steps[2][3] == 1))
+
+
+# --------------------------------------------------------------------------------------------------------------------
+# "these versions equal the MdibVersion at which the change became visible": mk_context_state / disassociate_all stamp
+# new_mdib_version (proved above). That this IS the version the commit creates rests on three facts proved under C02 and
+# re-checked here, because a change to any of them breaks C10 without touching the context code:
+#   - the transaction object (whose constructor computes new_mdib_version = mdib_version + 1, C02.tx_init) is created
+#     INSIDE the transaction lock + mdib_lock, so no other commit can happen between the snapshot and the commit;
+#   - the context commit and the descriptor commit set mdib_version to exactly new_mdib_version.
+from contracts import C02 as _c02   # noqa: E402
+
+
+def _rereg(base, new_id, doc):
+    cls = type('C10_' + base.__name__, (base,), {'id': new_id, 'prop': 'C10', 'doc': doc})
+    register(cls)
+
+
+_rereg(_c02.TransactionManager, 'C10.version_snapshot_and_commit_in_one_critical_section',
+       '_transaction_manager: the transaction object is created, used and committed while _tr_lock and mdib_lock are held '
+       '(C02.transaction_manager re-checked): the new_mdib_version a context state is stamped with cannot be overtaken')
+_rereg(_c02.TxInit, 'C10.new_mdib_version_is_the_next_version',
+       '_TransactionBase.__init__: new_mdib_version = mdib_version + 1 at creation (C02.tx_init re-checked)') \
+    if hasattr(_c02, 'TxInit') else None
+from pyvc.api import REGISTRY as _REG   # noqa: E402
+for _cls in list(_REG.get('C02', [])):
+    _cls = _cls if isinstance(_cls, type) else type(_cls)
+    if getattr(_cls, 'id', None) == 'C02.process.context':
+        _rereg(_cls, 'C10.context_commit_creates_exactly_the_stamped_version',
+               'ContextStateTransaction.process_transaction sets mdib_version to exactly new_mdib_version - the value '
+               'BindingMdibVersion / UnbindingMdibVersion were stamped with (C02.process.context re-checked)')
+_rereg(_c02.DescriptorProcessTransaction, 'C10.descriptor_commit_creates_exactly_the_stamped_version',
+       'DescriptorTransaction.process_transaction (set_location style changes inside a descriptor transaction) sets '
+       'mdib_version to exactly new_mdib_version (C02.descriptor_process_transaction re-checked)')
